@@ -760,7 +760,9 @@ class TraceManager:
         removed = self.tracegraph.remove_with_descs(node)
         self.refgraph.remove_with_referred(removed)
         for node in removed:
-            if node_has_key(node):
+            if node[OBJ].model is not self:     # dependant in another model
+                node[OBJ].model.clear_with_descs(node)
+            elif node_has_key(node):
                 node[OBJ].on_clear_trace(node[KEY])
 
     def clear_obj(self, obj):
@@ -768,7 +770,9 @@ class TraceManager:
         removed = self.tracegraph.clear_obj(obj)
         self.refgraph.remove_with_referred(removed)
         for node in removed:
-            if node_has_key(node):
+            if node[OBJ].model is not self:     # dependant in another model
+                node[OBJ].model.clear_with_descs(node)
+            elif node_has_key(node):
                 node[OBJ].on_clear_trace(node[KEY])
 
     def clear_attr_referrers(self, ref):
@@ -776,7 +780,10 @@ class TraceManager:
         for node in removed:
             descs = self.tracegraph.remove_with_descs(node)
             for desc in descs:
-                desc[OBJ].on_clear_trace(desc[KEY])
+                if desc[OBJ].model is not self:     # dependant in another model
+                    desc[OBJ].model.clear_with_descs(desc)
+                else:
+                    desc[OBJ].on_clear_trace(desc[KEY])
 
     def get_calcsteps(self, targets, nodes, step_size):
         """ Get calculation steps
